@@ -18,7 +18,11 @@ import sys
 import time
 
 VERIF = os.path.dirname(os.path.dirname(os.path.abspath(__file__)))
-REPO = os.environ.get("VERIF_REPO", "/repo")
+REPO = os.path.abspath(os.environ.get("VERIF_REPO", "/repo"))
+# When VERIF_REPO points at a scratch worktree (used to try seeded changes without touching
+# /repo) everything is kept apart: own work dir, own binaries, own go.mod with the replaces
+# pointing at that tree.
+ALT = "" if REPO == "/repo" else "@" + re.sub(r"[^A-Za-z0-9]+", "_", REPO).strip("_")
 SPECS = os.path.join(VERIF, "specs")
 HARNESS = os.path.join(VERIF, "harness")
 WORK = os.path.join(VERIF, "work")
@@ -115,7 +119,7 @@ class Ctx:
         self.seed = seed
         self.replay = replay
         self.t0 = time.time()
-        self.work = os.path.join(WORK, pid)
+        self.work = os.path.join(WORK, pid + ALT)
         self.violations = []   # dicts: sig, desc, replay
         self.known_hits = []
         self._tlc_n = 0
@@ -130,12 +134,21 @@ class Ctx:
     # ---------------------------------------------------------------- build
     def build(self, cmd, race=False, tags="verif"):
         """go build ./cmd/<cmd> of the harness against /repo's working tree."""
-        out = os.path.join(WORK, "bin", cmd + ("-race" if race else ""))
+        out = os.path.join(WORK, "bin" + ALT, cmd + ("-race" if race else ""))
         os.makedirs(os.path.dirname(out), exist_ok=True)
         gosum = os.path.join(HARNESS, "go.sum")
         if not os.path.exists(gosum):
             shutil.copy(os.path.join(REPO, "go.sum"), gosum)
         args = ["go", "build", "-tags", tags]
+        if ALT:
+            moddir = os.path.join(WORK, "mod" + ALT)
+            os.makedirs(moddir, exist_ok=True)
+            with open(os.path.join(HARNESS, "go.mod")) as fh:
+                gm = fh.read().replace("=> /repo", "=> " + REPO)
+            with open(os.path.join(moddir, "go.mod"), "w") as fh:
+                fh.write(gm)
+            shutil.copy(gosum, os.path.join(moddir, "go.sum"))
+            args.append("-modfile=" + os.path.join(moddir, "go.mod"))
         if race:
             args.append("-race")
         args += ["-o", out, "./cmd/" + cmd]
@@ -349,12 +362,13 @@ class Ctx:
                   wall_s=round(time.time() - self.t0, 2), violations=len(self.violations))
         coverage.setdefault("tlc_runs", self.tlc_runs)
         coverage.setdefault("known_findings_hit", [h["sig"] for h in self.known_hits])
-        os.makedirs(os.path.join(VERIF, "evidence"), exist_ok=True)
-        tmp = os.path.join(VERIF, "evidence", self.pid + ".json.tmp")
+        evdir = os.path.join(VERIF, "evidence") if not ALT else self.work
+        os.makedirs(evdir, exist_ok=True)
+        tmp = os.path.join(evdir, self.pid + ".json.tmp")
         with open(tmp, "w") as fh:
             json.dump(ev, fh, indent=1, default=str)
             fh.write("\n")
-        os.replace(tmp, os.path.join(VERIF, "evidence", self.pid + ".json"))
+        os.replace(tmp, os.path.join(evdir, self.pid + ".json"))
         for h in self.known_hits:
             print("KNOWN-FINDING: property=%s %s [%s]" % (self.pid, h["desc"], h["sig"]))
         seen = set()
